@@ -39,7 +39,7 @@ impl Property for Prop {
         "C05"
     }
     fn rule(&self) -> &'static str {
-        "short: every byte string of length 0..=2 (quick) / 0..=3 (thorough) in each of 15 receiver states (empty / one / full free list, zero slots, open context on the probed id / an aliasing id / every slot, context nearly full, storage smaller than fragments, remembered 3- and 6-byte label, manager knowing all / some / no mandatory ids (incl. ids declared with 253 / 254 / 255 data bytes, final and non-final), 256 slots, every slot open with the free list refilled); headers: every 16-bit header word x buffer length in {2,3,4,announced-1,announced,announced+1,announced+7} x structured tails (frag ids matching / aliasing / unknown, total length 0/1/2/0xFFFF, extension ids of every H-LEN, mandatory known/unknown ids, zero labels, zeros, FF, random), states rotated; mutated: packets of valid hand-made trains with bit flips, truncations, length-field edits, field splices; random: buffers up to 8 KiB; histories: sequences of 1..60 hostile packets on one decapsulator (state evolves, storage re-provisioned at random with buffers of 1x / 2x / 5x the configured size, through the decapsulator or its public memory field), allopen: a reassembly open on every one of the 256 fragment ids at once (256 / 300 / 255-slot memories), continued and finished; memfaults: valid and rejected trains on a memory wrapper that refuses the i-th trait operation with each documented error, for every i; incl. a state with 70000-byte storage and a context near 65535 bytes. Every decap / peek call is an evaluation; fingerprint = hash(state, input bytes); non-trivial = input of at least 2 bytes that is not padding (reaches a packet-kind handler)."
+        "short: every byte string of length 0..=2 (quick) / 0..=3 (thorough) in each of 15 receiver states (empty / one / full free list, zero slots, open context on the probed id / an aliasing id / every slot, context nearly full, storage smaller than fragments, remembered 3- and 6-byte label, manager knowing all / some / no mandatory ids (incl. ids declared with 253 / 254 / 255 data bytes, final and non-final), 256 slots, every slot open with the free list refilled); headers: every 16-bit header word x buffer length in {2,3,4,announced-1,announced,announced+1,announced+7} x structured tails (frag ids matching / aliasing / unknown, total length 0/1/2/0xFFFF, extension ids of every H-LEN, mandatory known/unknown ids, zero labels, zeros, FF, random), states rotated; mutated: packets of valid hand-made trains with bit flips, truncations, length-field edits, field splices; random: buffers up to 8 KiB; histories: sequences of 1..60 hostile packets on one decapsulator (state evolves, storage re-provisioned at random with buffers of 1x / 2x / 5x the configured size, through the decapsulator or its public memory field), tightfit: complete packets and first fragments whose PDU part is 3 below .. 4 above the storage size (every size 0..=63) x label kinds x {no, optional, non-final mandatory, final mandatory with 0 / 1 / 3 data bytes} extensions; allopen: a reassembly open on every one of the 256 fragment ids at once (256 / 300 / 255-slot memories), continued and finished; memfaults: valid and rejected trains on a memory wrapper that refuses the i-th trait operation with each documented error, for every i; incl. a state with 70000-byte storage and a context near 65535 bytes. Every decap / peek call is an evaluation; fingerprint = hash(state, input bytes); non-trivial = input of at least 2 bytes that is not padding (reaches a packet-kind handler)."
     }
     fn gens(&self, cx: &Cx) -> Vec<Gen> {
         vec![
@@ -49,6 +49,7 @@ impl Property for Prop {
             Gen { name: "histories", count: cx.n(20_000, 1_000_000), exhaustive: false },
             Gen { name: "bighist", count: cx.n(64, 2_000), exhaustive: false },
             Gen { name: "allopen", count: 4, exhaustive: true },
+            Gen { name: "tightfit", count: 64, exhaustive: true },
             Gen { name: "memfaults", count: cx.n(3_000, 200_000), exhaustive: false },
         ]
     }
@@ -220,6 +221,61 @@ impl Property for Prop {
                     }
                 }
                 rep.count("c05.histories");
+            }
+            "tightfit" => {
+                // complete packets and first fragments whose PDU part is a few bytes below / at / above the storage
+                // size (key = storage size 0..=63): no label / 3 / 6 bytes; no extension, an optional one, a non-final
+                // mandatory one with data, a FINAL mandatory one with 0..3 data bytes (no type field follows it)
+                use crate::wire::{serialise, ExtEntry, Fields, Kind, Mand, MandTable};
+                let storage = key as usize;
+                let mut table = MandTable::none();
+                table.t[0x41] = Mand::Final(0);
+                table.t[0x42] = Mand::Final(1);
+                table.t[0x43] = Mand::Final(3);
+                table.t[0x44] = Mand::NonFinal(2);
+                let chains: Vec<(Vec<ExtEntry>, bool, u16)> = vec![
+                    (vec![], false, 0x0800),
+                    (vec![ExtEntry { id: 0x0233, data: vec![1, 2] }], false, 0x0800),
+                    (vec![ExtEntry { id: 0x0044, data: vec![1, 2] }], false, 0x0800),
+                    (vec![ExtEntry { id: 0x0041, data: vec![] }], true, 0x0041),
+                    (vec![ExtEntry { id: 0x0042, data: vec![9] }], true, 0x0042),
+                    (vec![ExtEntry { id: 0x0043, data: vec![9, 8, 7] }], true, 0x0043),
+                    (vec![ExtEntry { id: 0x0233, data: vec![1, 2] }, ExtEntry { id: 0x0043, data: vec![9, 8, 7] }], true, 0x0043),
+                ];
+                for (ci, (exts, fin, pt)) in chains.iter().enumerate() {
+                    for lt in 0..3u8 {
+                        let lab = [0xA1u8, 2, 3, 4, 5, 6];
+                        let wl: &[u8] = match lt {
+                            0 => &lab[..],
+                            1 => &lab[..3],
+                            _ => &[],
+                        };
+                        for d in -3i64..=4 {
+                            let plen = storage as i64 + d;
+                            if plen < 0 {
+                                continue;
+                            }
+                            let pdu = vec![0x5Au8; plen as usize];
+                            for kind in [Kind::Complete, Kind::First] {
+                                let total = (2 + wl.len() + plen as usize + 10) as u16;
+                                let p = serialise(&Fields { kind, lt, frag_id: 5, total_len: total, ptype: *pt, label: wl, exts, final_ext: *fin, payload: &pdu, crc: 0 });
+                                for nbuf in [1usize, 2] {
+                                    let mut d = plain_dec(2, storage, nbuf, storage, table.clone());
+                                    let mut rx = RxSpec::new(table.clone());
+                                    rep.eval();
+                                    let res = dec_guard(&mut d, &p);
+                                    rx.observe(&p, &res, RX_C05, "tight-fit", rep, &replay);
+                                    match res {
+                                        Err(_) => rep.count("c05.panic"),
+                                        Ok(Ok(_)) => rep.count("c05.accepted"),
+                                        Ok(Err(_)) => rep.count("c05.rejected"),
+                                    }
+                                }
+                                rep.nontrivial(mix(mix(0x71F7, key), (ci * 1000 + lt as usize * 100 + (d + 3) as usize * 2 + (kind == Kind::First) as usize) as u64));
+                            }
+                        }
+                    }
+                }
             }
             "allopen" => {
                 // a reassembly open on EVERY fragment id at once (256-slot and 300-slot memories with enough storage),
